@@ -82,6 +82,7 @@ func RunC15(c *Ctx) {
 		var keep []kept
 		prev := "start"
 		limitThemed := index%30 == 11
+		inbuf := make([]byte, 1<<16)
 		var prevDoc []byte
 		small := []string{"null", " null ", "{}", "[]", "[1]", `{"a":1}`, `{"a":1,"b":[true]}`, `{"a":1,"b":`, `[1,2,`, `"str"`, "12", `{"a":{"b":[]}}`, `[[],[[]]]`, "nul", ""}
 		for i := 0; i < n; i++ {
@@ -111,6 +112,11 @@ func RunC15(c *Ctx) {
 				doc, dk = prevDoc, "previous document again"
 			}
 			prevDoc = doc
+			if index%3 != 0 && len(doc) <= len(inbuf) {
+				// documents arrive in one reused input buffer: same address, different bytes
+				doc = inbuf[:copy(inbuf, doc)]
+				c.Rec.C("calls_on_a_refilled_input_buffer")
+			}
 			if forced {
 				fn = r.Intn(3)
 			} else if r.Intn(2) == 0 {
